@@ -90,7 +90,13 @@ def cross_type_events(env, rng, thorough):
             ("(Scalar/Scalar of another type).CreateCopy(value, unit=u)", lambda: qu.CreateCopy(value=5.0, unit=ua)),
             ("(Array*Array).CreateCopy(values, unit=v)", lambda: asq.CreateCopy(values=[5.0, 6.0], unit=ub)),
         ]
-        objs = [sa, sb, aa, ab, fa, fb, sq, pr, qu, asq]
+        # two value classes mixed in one sum or ordering
+        from barril.units import FixedArray as _FA
+        fxa = _FA(2, ca, [1.0, 2.0], ua)
+        mixed = {"Array+Scalar", "Array-Scalar", "Scalar+Array", "FixedArray-Scalar", "Scalar<Array", "FractionScalar+Scalar"}
+        calls += [("Array+Scalar", lambda: aa + sb), ("Array-Scalar", lambda: aa - sb), ("Scalar+Array", lambda: sa + ab), ("FixedArray-Scalar", lambda: fxa - sb),
+                  ("Scalar<Array", lambda: sa < ab), ("FractionScalar+Scalar", lambda: fa + sb)]
+        objs = [sa, sb, aa, ab, fa, fb, sq, pr, qu, asq, fxa]
         for name, fn in calls:
             n += 1
             full = n % 97 == 0
@@ -99,7 +105,7 @@ def cross_type_events(env, rng, thorough):
             o = P.outcome(fn)
             post_reg = (digest(db) if full else "") + repr(qalg.light_digest(db))
             post_ops = json.dumps([P.value_obj(x) for x in objs], sort_keys=True)
-            events.append({"op": "Reject", "call": name, "from": [a, ua], "to": [b, ub],
+            events.append({"op": "Refused" if name in mixed else "Reject", "call": name, "from": [a, ua], "to": [b, ub],
                            "family": "ok" if o[0] == "ok" else o[1], "cls": "" if o[0] == "ok" else o[2],
                            "reg_pre": pre_reg, "reg_post": post_reg, "ops_pre": pre_ops, "ops_post": post_ops})
     return events
